@@ -175,14 +175,27 @@ impl Drop for CallFut {
     }
 }
 
+/// The error a failing call reports: every variant of `blockstore::Error` that can be built here, chosen by the
+/// content the call was about (so that a history replays identically) — what the node does with a failed call
+/// must not depend on the kind of failure.
+fn scripted_error(tag: u8) -> Error {
+    match tag % 4 {
+        0 => Error::StoredDataError("scripted".into()),
+        1 => Error::CidTooLarge,
+        2 => Error::ValueTooLarge,
+        _ => Error::FatalDatabaseError("scripted".into()),
+    }
+}
+
 impl Blockstore for ScriptedStore {
     fn get<const S: usize>(&self, cid: &CidGeneric<S>) -> impl Future<Output = Result<Option<Vec<u8>>>> + Send {
         let fut = CallFut { store: self.clone(), kind: Some(CallKind::Get(cid.to_bytes())), seq: None };
+        let tag = cid.to_bytes().last().copied().unwrap_or(0);
         async move {
             match fut.await {
                 StoreResult::Hit(d) => Ok(Some(d)),
                 StoreResult::Miss => Ok(None),
-                _ => Err(Error::StoredDataError("scripted".into())),
+                _ => Err(scripted_error(tag)),
             }
         }
     }
@@ -212,11 +225,12 @@ impl Blockstore for ScriptedStore {
         <I as IntoIterator>::IntoIter: Send,
     {
         let bs: Vec<(Vec<u8>, Vec<u8>)> = blocks.into_iter().map(|(c, d)| (c.to_bytes(), d.as_ref().to_vec())).collect();
+        let tag = bs.first().and_then(|b| b.0.last().copied()).unwrap_or(0);
         let fut = CallFut { store: self.clone(), kind: Some(CallKind::Put(bs)), seq: None };
         async move {
             match fut.await {
                 StoreResult::PutOk => Ok(()),
-                _ => Err(Error::StoredDataError("scripted".into())),
+                _ => Err(scripted_error(tag)),
             }
         }
     }
